@@ -80,8 +80,8 @@ class AbsPDF:
         params = {
             k: self.vm.get(k, val_in_fit=False) for k in self.vm.variables
         }
-        self.set_params(var)
         try:
+            self.set_params(var)
             yield var
         finally:
             self.set_params(params)
